@@ -577,9 +577,13 @@ func (s *subscriberServer) Seek(
 	switch target := req.Target.(type) {
 	case *pubsubpb.SeekRequest_Time:
 		// FUTURE: do we want to bound how far in the future or past the target can be?
+		seekTime := target.Time.AsTime()
+		if seekTime.IsZero() {
+			return nil, status.Error(codes.InvalidArgument, "Invalid seek time")
+		}
 		action := actions.NewSeekSubscriptionToTime(actions.SeekSubscriptionToTimeParams{
 			Name: req.Subscription,
-			Time: target.Time.AsTime(),
+			Time: seekTime,
 		})
 		if err := s.client.DoCtxTxRetry(
 			ctx,
@@ -594,6 +598,9 @@ func (s *subscriberServer) Seek(
 		}
 		return &pubsubpb.SeekResponse{}, nil
 	case *pubsubpb.SeekRequest_Snapshot:
+		if target.Snapshot == "" {
+			return nil, status.Error(codes.InvalidArgument, "Missing snapshot name")
+		}
 		action := actions.NewSeekSubscriptionToSnapshot(actions.SeekSubscriptionToSnapshotParams{
 			SubscriptionName: req.Subscription,
 			SnapshotName:     target.Snapshot,
